@@ -120,12 +120,9 @@ func (c *compiler) compile() (string, error) {
 }
 
 func (c *compiler) write(bb *strings.Builder, i interface{}) {
-	if rv := reflect.ValueOf(i); rv.Kind() == reflect.Ptr && rv.IsNil() {
-		// a nil pointer prints nothing, whatever it points to (*time.Time,
-		// a Stringer or HTMLer implemented on the value type, ...)
-		return
-	}
-
+	// A nil pointer prints what its own methods make of it: nothing when
+	// they are implemented on the value type (calling them panics, see
+	// textOf), their text when they expect a nil receiver.
 	switch t := i.(type) {
 	case time.Time:
 		// the formatted time is a string like any other: the name of its
@@ -136,7 +133,9 @@ func (c *compiler) write(bb *strings.Builder, i interface{}) {
 		}
 		bb.Write(unsafeGetBytes(template.HTMLEscaper(t.Format(DefaultTimeFormat))))
 	case *time.Time:
-		c.write(bb, *t)
+		if t != nil {
+			c.write(bb, *t)
+		}
 	case interfaceable:
 		var inner interface{}
 		if _, err := safely(func() { inner = t.Interface() }); err == nil {
